@@ -54,6 +54,54 @@ pub enum Ev {
     /// the system clock is stepped (NTP correction, suspend/resume, operator):
     /// from now on the wall clock reads true time + this many seconds
     ClockStep(i32),
+    /// any other event a terminal can produce (see `term_event`): further key
+    /// codes (Delete, End, Left, Right, Insert, BackTab, F-keys, Null), key
+    /// release / auto-repeat reports of the kitty protocol, focus changes, a
+    /// bracketed paste, mouse buttons and movement. The property quantifies over
+    /// "key presses and terminal events"; none of these is a documented key.
+    Term(u8),
+}
+
+/// what `Ev::Term(n)` stands for
+pub enum TermEv {
+    /// a key press with this code: reaches update()
+    Press(KeyCode),
+    /// release (false) or auto-repeat (true) report of a character key
+    NotPress(char, bool),
+    FocusGained,
+    FocusLost,
+    Paste(&'static str),
+    /// 0 button down, 1 button up, 2 moved, 3 drag, 4 wheel left, 5 wheel right
+    Mouse(u8),
+}
+
+pub fn term_event(n: u8) -> TermEv {
+    match n % 24 {
+        0 => TermEv::Press(KeyCode::Delete),
+        1 => TermEv::Press(KeyCode::End),
+        2 => TermEv::Press(KeyCode::Left),
+        3 => TermEv::Press(KeyCode::Right),
+        4 => TermEv::Press(KeyCode::Insert),
+        5 => TermEv::Press(KeyCode::BackTab),
+        6 => TermEv::Press(KeyCode::F(1)),
+        7 => TermEv::Press(KeyCode::F(12)),
+        8 => TermEv::Press(KeyCode::Null),
+        9 => TermEv::Press(KeyCode::End),
+        10 => TermEv::NotPress('j', false),
+        11 => TermEv::NotPress('q', false),
+        12 => TermEv::NotPress('/', false),
+        13 => TermEv::NotPress('j', true),
+        14 => TermEv::NotPress('k', true),
+        15 => TermEv::FocusGained,
+        16 => TermEv::FocusLost,
+        17 => TermEv::Paste("q/jk-"),
+        18 => TermEv::Mouse(0),
+        19 => TermEv::Mouse(1),
+        20 => TermEv::Mouse(2),
+        21 => TermEv::Mouse(3),
+        22 => TermEv::Mouse(4),
+        _ => TermEv::Mouse(5),
+    }
 }
 
 #[derive(Clone, Debug, Serialize, Deserialize)]
@@ -103,6 +151,7 @@ pub fn gen_ev(rng: &mut Rng, nav_bias: bool) -> Ev {
         };
     }
     match rng.below(31) {
+        29 => Ev::Term(rng.below(24) as u8),
         30 => Ev::Mod(*rng.pick(&['a', 'c', 'v', '.', 'f', 'l', '-', 'q', 'j', 'k', 'g', '/', 'x']), rng.range(1, 7) as u8),
         0..=13 => Ev::Ch(*rng.pick(KEYS)),
         14 => {
@@ -586,6 +635,11 @@ pub fn keycode_of(ev: &Ev) -> Option<KeyCode> {
         Ev::Tab => KeyCode::Tab,
         Ev::ScrollUp => KeyCode::Char('k'),
         Ev::ScrollDown => KeyCode::Char('j'),
+        // (the event reader hands on key presses only)
+        Ev::Term(n) => match term_event(*n) {
+            TermEv::Press(code) => code,
+            _ => return None,
+        },
         _ => return None,
     })
 }
@@ -867,6 +921,9 @@ pub fn spawn_tui_stub(
                     other => {
                         if matches!(other, Ev::ScrollUp | Ev::ScrollDown) {
                             sh.borrow_mut().count("mouse_wheel");
+                        }
+                        if matches!(other, Ev::Term(_)) {
+                            sh.borrow_mut().count("other_terminal_event");
                         }
                         keycode_of(other).map(|c| ToTui::Event(Event::Key(KeyEvent::new(c, modifiers_of(other)))))
                     }
